@@ -44,12 +44,14 @@ def generate(rng, repo_root, config, tier="quick", opts=None):
         nx = int(round(3 * (400 / 3) ** rng.random()))
     max_steps = max(2, min(300, int(opts.get("cell_budget", 24000) / nx)))
     nsteps = max(1, int(round(max_steps ** rng.random())))
-    g = world.draw_grid(rng, n=nsteps + 1, families=("uniform", "quadratic", "geometric", "random", "random", "bigstep", "tiny", "nearly_uniform", "ramp"))
-    if rng.random() < 0.1 and len(g["t"]) > 3:
+    g = world.draw_grid(rng, n=nsteps + 1, families=("uniform", "quadratic", "geometric", "random", "random", "bigstep", "tiny", "nearly_uniform", "ramp", "integer"))
+    if g.get("dtype"):
+        pass
+    elif rng.random() < 0.1 and len(g["t"]) > 3:
         # a repeated time (zero increment) is a legal non-decreasing grid
         j = rng.randrange(1, len(g["t"]) - 1)
         g["t"][j] = g["t"][j - 1]
-    if rng.random() < 0.15:
+    if not g.get("dtype") and rng.random() < 0.15:
         # stretch to very large / very small mesh ratios
         f = 10.0 ** rng.choice([-6, -3, 3, 6])
         t0 = g["t"][0]
@@ -172,7 +174,7 @@ SOLVER_WARNING_NAMES = ("MatrixRankWarning", "LinAlgWarning", "ConvergenceWarnin
 def run_once(ns, scn, plan=None):
     r = OneRun()
     res = _build(ns, scn)
-    t = np.array(scn["grid"]["t"], dtype=float)
+    t = world.grid_array(scn["grid"])
     sched = None if scn.get("sched") is None else np.array(scn["sched"]["v"], dtype=float)
     r.raised = None
     r.warned = []
